@@ -27,7 +27,7 @@ PURE_STR_METHODS = {
     "translate", "join", "copy", "keys", "values", "items", "get",
 }
 PURE_BUILTINS = {"len", "str", "bytes", "int", "float", "bool", "min", "max", "abs", "hex", "ord", "chr", "list", "tuple", "set",
-                 "frozenset", "sorted", "reversed", "sum", "repr", "type", "iter", "next", "enumerate", "zip", "dict", "bytearray", "memoryview", "getattr", "hasattr", "range", "divmod", "round", "pow"}
+                 "frozenset", "sorted", "reversed", "sum", "repr", "type", "iter", "next", "enumerate", "zip", "dict", "bytearray", "memoryview", "getattr", "hasattr", "range", "divmod", "round", "pow", "filter", "map"}
 
 _fresh = itertools.count(1)
 
@@ -215,6 +215,11 @@ class TermRule(BaseRule):
         if (itv.kind == "tuple" and not itv.val) or (itv.kind == "const" and not itv.val):
             return [(st.copy(), False)]
         I = term_of(itv)
+        truthy_only = False
+        fop, fa = destruct(I)
+        if fop == "filter" and len(fa) == 2 and fa[0] == "None":
+            # for x in filter(None, xs): the walk over xs restricted to its truthy elements
+            I, truthy_only = fa[1], True
         key = ("iterated", I, stmt.lineno)
         if st.ts.get(key):
             s = st.copy()
@@ -223,6 +228,8 @@ class TermRule(BaseRule):
         s = st.copy()
         s.ts[key] = True
         s.ts["loops"] = s.ts.get("loops", ()) + (I,)
+        if truthy_only:
+            s.facts[T("each", I)] = (True, False)
         if isinstance(stmt.target, (ast.Tuple, ast.List)) and not any(isinstance(t, ast.Starred) for t in stmt.target.elts):
             n = len(stmt.target.elts)
             it.assign(s, stmt.target, AV("tuple", tuple(tv(T(f"each{i}", I)) for i in range(n)), truth=True, none=False))
